@@ -264,6 +264,23 @@ theorem not_psd_certificate_sound {n : Nat} (A : EMat n n) (x : EMat n 1) (μ : 
       ¬ (A.toM + (((μ : Rat) : ℝ) : ℂ) • (1 : Matrix (Fin n) (Fin n) ℂ)).PosSemidef :=
   npsdCert_sound A x μ
 
+/-- **independence certificate**: a left inverse `W V = I` proves that the columns of `V` are linearly
+    independent over `ℂ` (sent for every `yes` of `is_linearly_independent`). -/
+theorem linIndep_certificate_sound {d n : Nat} (V : EMat d n) (W : EMat n d) :
+    linIndepCert V W = true → LinearIndependent ℂ V.toM.col :=
+  linIndepCert_sound V W
+
+/-- **dependence certificate**: a non-zero `c` with `V c = 0` proves that they are not (sent for every `no`). -/
+theorem linDep_certificate_sound {d n : Nat} (V : EMat d n) (c : EMat n 1) :
+    linDepCert V c = true → ¬ LinearIndependent ℂ V.toM.col :=
+  linDepCert_sound V c
+
+/-- **rank certificate**: `P S Q = I_r`, `S N = 0`, `M N = I_k`, `r + k = #columns` prove `rank S = r` and
+    `dim ker S = k`; with `S` the linear system of `commutant` this is the exact dimension of the commutant. -/
+theorem rank_certificate_sound {R C r k : Nat} (S : EMat R C) (P : EMat r R) (Q : EMat C r) (N : EMat C k) (M : EMat k C) :
+    rankCert S P Q N M = true → S.toM.rank = r ∧ Module.finrank ℂ (LinearMap.ker S.toM.mulVecLin) = k :=
+  rankCert_sound S P Q N M
+
 /-! ## Part 3 — invariances used by the generators (all sizes, commutative star rings) -/
 
 section invariance
